@@ -217,7 +217,64 @@ def uses_numba(repo, rel) -> bool:
     return any(isinstance(n, ast.FunctionDef) and any("njit" in ast.dump(d) or "jit" in ast.dump(d) for d in n.decorator_list) for n in ast.walk(tree))
 
 
+# named exemptions of the purity rule (one line of reason each)
+PURITY_EXEMPT = {
+    ("jesse/helpers.py", "get_config"): "configuration memo keyed by its whole argument; entry-time invalidation is decided by C11-R1",
+}
+
+
+def check_purity(repo: Repo, rep, rid: str):
+    """indicators are functions of their input (shared by C13 / C14 / C15: a value that depends on what was computed before - an earlier
+    call, another indicator on the same candles - is neither causal, nor equal to its sequential twin, nor its definition)"""
+    import ast as _ast
+    from vlib.purity import Purity
+    from vlib import indic_run as IR
+    rep.rule(rid, "effect analysis of the indicator call graph (every public indicator, the module-local helpers / numba kernels and the "
+                  "jesse.helpers / jesse.utils functions they call): no in-place modification of the caller's candle array - the input, "
+                  "a column or slice view of it, what get_candle_source / slice_candles hand back - by an augmented assignment, a "
+                  "subscript store, out=, or an in-place method; no store into module-level state (a cache or memo) unless its key is a "
+                  "whole-content digest of every array argument")
+    # the analysis must still see what it is there for: a positive example of each effect, analysed on every run
+    src = ("import numpy as np\n_CACHE = {}\n"
+           "def probe(candles, period=3):\n    source = candles[:, 2]\n    source -= source[0]\n    key = (len(candles), candles[-1, 0])\n"
+           "    _CACHE[key] = source\n    return source\n"
+           "def clean(candles, period=3):\n    source = candles[:, 2] - candles[0, 2]\n    key = candles.tobytes()\n    _CACHE[key] = source\n    return source\n")
+    from vlib.loader import Module
+    probe_mod = Module("jesse/indicators/__purity_probe__.py", src.replace("\\n", "\n"), _ast.parse(src.replace("\\n", "\n")))
+    pp = Purity(repo)
+    pp.analyse(probe_mod, probe_mod.defs["probe"], (0,))
+    got = {f.rule for f in pp.findings}
+    pc = Purity(repo)
+    pc.analyse(probe_mod, probe_mod.defs["clean"], (0,))
+    if got != {"R-input", "R-global"} or pc.findings:
+        raise AnalysisError(f"purity analysis does not decide its own examples any more (probe: {sorted(got)}, clean twin: {[f.what for f in pc.findings]})")
+    P = Purity(repo)
+    n = 0
+    for name, rel, fn in IR.public_indicators(repo):
+        mod = repo.module(rel)
+        params = [a.arg for a in fn.args.args]
+        if not params:
+            continue
+        P.analyse(mod, fn, (0,))
+        n += 1
+        rep.instance(rid, f"indicator|{name}", None)
+    seen = set()
+    for f in P.findings:
+        if f.key() in seen:
+            continue
+        seen.add(f.key())
+        if (f.rel, f.func) in PURITY_EXEMPT:
+            rep.instance(rid, f"exempt|{f.rel}:{f.func}", {"exempt": PURITY_EXEMPT[(f.rel, f.func)]})
+            continue
+        rep.violation(rid, f"{f.rule}|{f.rel}:{f.func}", f"{f.rel}: {f.func}: {f.what} - the result of an indicator then depends on earlier calls, not on its input alone")
+    rep.extra["purity"] = {"indicators": n, "functions_analysed": len(P.visited_funcs), "summaries": len(P.summaries)}
+    if n < 150 or len(P.visited_funcs) < 250:
+        raise AnalysisError(f"purity analysis covered only {n} indicators / {len(P.visited_funcs)} functions")
+    rep.floor(rid, 150)
+
+
 def run(repo: Repo, rep, tier: str):
+    rep.guarded(check_purity, repo, rep, "C14-R3")
     rid = "C14-R1"
     rep.rule(rid, "every public indicator interpreted with sequential=True and False on the same abstract input: each series has one "
                   "entry per candle; the single value is structurally the last entry of the series (same expression on the same inputs; "
